@@ -525,11 +525,14 @@ def independence_case(ctx, rng, idx):
             z = (np.log(psi) - mu) / sd if kd == 'L' else (psi - mu) / sd
             feats.update(kind_of_model=kd, wrapper=wrapper, groups=groups)
             ctx.count('stream_independence_tests')
-            if len(np.unique(np.round(z, 9))) < n_g:
+            # (shared noise shows as many equal standardised values; up to
+            # two coincidences among thousands of values rounded to 1e-11
+            # are left to chance - tail regimes concentrate the values)
+            if len(np.unique(np.round(z, 11))) < n_g - 2:
                 ctx.violation('streams_are_independent',
                               'identical_noise_across_covariate_groups',
                               {'distinct': int(len(np.unique(
-                                  np.round(z, 9)))), 'n': n_g}, feats)
+                                  np.round(z, 11)))), 'n': n_g}, feats)
                 return
             m_ = n_g // groups
             a = psi[0:m_ * groups:groups]
